@@ -101,8 +101,13 @@ theorem transOrder_spec {s : Layout} (h : Inert s) (order : List Nat)
   have hlen : s.activeHeldLayers.length + 2 ≤ 12 := hh ▸ hl
   have habs : (abs s).base = s.defaultLayer := rfl
   simp only [habs]
+  have htake : (if s.cfg.pinnedLayerStack = true then s.activeHeldLayers
+      else s.activeHeldLayers.take MAX_ACTIVE_LAYERS) = s.activeHeldLayers := by
+    split
+    · rfl
+    · exact List.take_of_length_le (by simp only [MAX_ACTIVE_LAYERS]; omega)
   by_cases hv : s.transV2 = true
-  · simp only [hv, if_true] at ho ⊢
+  · simp only [hv, if_true, htake] at ho ⊢
     rw [if_neg (by simp only [MAX_ACTIVE_LAYERS]; omega)] at ho
     have p1 : pushCap MAX_ACTIVE_LAYERS s.activeHeldLayers s.defaultLayer = s.activeHeldLayers ++ [s.defaultLayer] := by
       unfold pushCap; rw [if_pos (by simp only [MAX_ACTIVE_LAYERS]; omega)]
